@@ -263,8 +263,13 @@ Definition show_inner (UP : list N) (s : store) : bytes :=
   | [] => B"_"
   | l => join B"," l
   end.
-Definition run_line (l : bytes) : bytes :=
-  match tokens l with
+(* "ORD <pairs> <spinners>": the regression detector for the one thing this model takes from the code
+   without modelling it — entry ids ([pe_id] = position in commit order, [pnext] counter) sort in the
+   order in which the entries were saved.  The harness saves <pairs> entries through the real
+   repository while <spinners> goroutines create other ULIDs and reports "ordered" or
+   "inverted:<k>"; in the model ids ARE the save order, so the answer is always "ordered". *)
+Definition run_steps (toks : list bytes) : bytes :=
+  match toks with
   | lt :: pt :: steps =>
       do lease <- parse_N lt;
       do UP <- untok_ns pt;
@@ -272,4 +277,9 @@ Definition run_line (l : bytes) : bytes :=
       let '(s, rs) := run_p lease UP pinit tr in
       unwords (map show_pres rs ++ [B"#"; show_inner UP (inner_parts s); B"Q" ++ show_nat (length (entries s))])
   | _ => parse_error
+  end.
+Definition run_line (l : bytes) : bytes :=
+  match tokens l with
+  | t :: rest => if bytes_eqb t B"ORD" then B"ordered" else run_steps (t :: rest)
+  | [] => parse_error
   end.
